@@ -128,9 +128,17 @@ def stat_run(spec):
         counts = np.zeros(ncell, dtype=np.int64)
         nonprod = 0
         prodmask = None
-        for _ in range(n):
+        kept = []       # a few maps the caller keeps while drawing more: later draws must not change them
+        for it in range(n):
             M = sm.random_clifford_map(N, **kw) if what != 'pauli-map' else sm.random_pauli_map(N, **kw)
             l, k = Bk.read_list(M)
+            if it < 64:
+                kept.append((M, l.copy(), k.copy()))
+            elif it == 64:
+                for j, (Mk, lk, kk) in enumerate(kept):
+                    l2, k2 = Bk.read_list(Mk)
+                    check((l2 == lk).all() and (k2 == kk).all(), 'map #%d returned by %s was %s when drawn and is %s after later draws' % (
+                        j, what, ref.show_list(lk, kk), ref.show_list(l2, k2)), 'sample-overwritten')
             i = idx.get(l.tobytes())
             if i is None or not (k % 2 == 0).all():
                 raise Mismatch('sampled map is not in the Clifford group: %s' % ref.show_list(l, k), 'invalid-map')
